@@ -169,8 +169,8 @@ def main():
         sig = profile.signature(v["violation"])
         k = sig_key(sig)
         cur = groups.get(k)
-        cand = (len(v["ops"]), v["index"])
-        if cur is None or cand < (len(cur["ops"]), cur["index"]):
+        cand = (0 if v.get("ops_with_history") else 1, len(v["ops"]), v["index"])
+        if cur is None or cand < (0 if cur.get("ops_with_history") else 1, len(cur["ops"]), cur["index"]):
             groups[k] = v
         groups[k].setdefault("count", 0)
     counts = {}
@@ -190,7 +190,7 @@ def main():
         sig = json.loads(k)
         if m is None:
             harness_bad.append((sig, v))
-            print("HARNESS-ERROR violation of seed %s could not be reproduced by in-process replay: %s" % (v["seed"], k))
+            print("NOTE violation of seed %s did not reproduce by replay in a clean process: %s" % (v["seed"], k))
             continue
         path = write_replay(prop, v["seed"], a.tier, m["config"], m["ops"], m["violation"], sig)
         prepared.append((k, v, m, sig, path))
@@ -268,9 +268,12 @@ def main():
     print("summary %s: runs=%d steps=%d wall=%.1fs (%.0f runs/h) violations=%d known=%d%s" % (
         prop, merged["runs"], merged["steps"], wall, merged["runs"] / max(merged["wall_s"], 1e-9) * 3600,
         len(reported), len(known_seen), " [wall cap hit]" if merged["capped"] else ""))
-    if harness_bad:
-        print("HARNESS-ERROR %d violation(s) could not be reproduced by replay" % len(harness_bad))
+    if harness_bad and not reported:
+        print("HARNESS-ERROR %d violation(s) could not be reproduced by replay and none could" % len(harness_bad))
         return 3
+    if harness_bad:
+        print("NOTE %d further violation signature(s) were seen but did not reproduce from a replay file and are not "
+              "reported (they depend on state outside their own history)" % len(harness_bad))
     return 1 if reported else 0
 
 
@@ -283,7 +286,12 @@ class _Mini(object):
     def __call__(self, v):
         profile = kernel._WORKER["profile"]
         sig = profile.signature(v["violation"])
-        return shrink.Shrinker(profile, v["config"], v["ops"], sig).run()
+        out = shrink.Shrinker(profile, v["config"], v["ops"], sig).run()
+        if out is None and v.get("ops_with_history"):
+            # does not reproduce from a clean process on its own: replay it after the histories that preceded it in its
+            # chunk (new_run markers), and let ddmin remove whatever is irrelevant
+            out = shrink.Shrinker(profile, v["config"], v["ops_with_history"], sig, budget=900).run()
+        return out
 
 
 def _json_default(o):
